@@ -309,6 +309,127 @@ def replay_run(ctx, prop, obj):
     return rc
 
 
+# ------------------------------------------------------------------------------------------------ real processes
+_TASKS_SRC = '''import os, time
+from pathlib import Path
+from experimaestro import Task, Param
+
+
+class Hold(Task):
+    x: Param[int]
+    count: Param[int]
+    log: Param[Path]
+    dur: Param[float]
+
+    def execute(self):
+        fd = os.open(str(self.log), os.O_WRONLY | os.O_APPEND | os.O_CREAT)
+        os.write(fd, f"S {self.x} {self.count} {time.time()}\\n".encode())
+        time.sleep(self.dur)
+        os.write(fd, f"E {self.x} {self.count} {time.time()}\\n".encode())
+        os.close(fd)
+'''
+
+_SCHED_SRC = '''import sys, os, logging, json
+from pathlib import Path
+args = json.loads(sys.argv[1])
+sys.path.insert(0, args["pkg"])
+logging.basicConfig(level=logging.WARNING)
+from experimaestro import experiment
+from experimaestro.tokens import CounterToken
+from xvtokpkg.tasks import Hold
+with experiment(Path(args["ws"]), "tok", port=-1) as xp:
+    xp.setenv("PYTHONPATH", os.pathsep.join([args["pkg"]] + ([os.environ["PYTHONPATH"]] if os.environ.get("PYTHONPATH") else [])))
+    token = CounterToken("shared", Path(args["tokdir"]), args["total"])
+    for i, c in enumerate(args["reqs"]):
+        t = Hold(x=100 * args["s"] + i, count=c, log=Path(args["log"]), dur=args["dur"])
+        t.add_dependencies(token.dependency(c))
+        t.submit()
+    xp.wait()
+print("FINAL", flush=True)
+'''
+
+
+def real_runs(ctx, prop, rounds=2, timeout=75):
+    """thorough tier: three real scheduler processes (real watchdog observers, real IPC lock, real task processes)
+    share one token directory; the task-side interval log must respect the capacity (C08); a scheduler that hangs
+    is attributed to a finding through the signature in its stderr (C09)"""
+    import os
+    import signal
+    import subprocess
+    import sys
+    from pathlib import Path
+    root = Path(ctx.tmpdir()) / f"real-{prop}"
+    pkg = root / "pkg" / "xvtokpkg"
+    pkg.mkdir(parents=True, exist_ok=True)
+    (pkg / "__init__.py").write_text("")
+    (pkg / "tasks.py").write_text(_TASKS_SRC)
+    (root / "sched_main.py").write_text(_SCHED_SRC)
+    stats = {"rounds": 0, "tasks_logged": 0, "hung_schedulers": 0, "max_held": 0, "signatures": {}}
+    for rd in range(rounds):
+        total = ctx.rng.randint(1, 3)
+        rdir = root / f"r{rd}"
+        procs = []
+        for s in range(3):
+            a = {"pkg": str(root / "pkg"), "ws": str(rdir / f"ws{s}"), "tokdir": str(rdir / "tok"), "total": total, "s": s,
+                 "reqs": [ctx.rng.randint(1, total) for _ in range(3)], "log": str(rdir / "log.txt"), "dur": 0.25}
+            (rdir / f"ws{s}").mkdir(parents=True, exist_ok=True)
+            env = dict(os.environ, XPM_WORKDIR=str(rdir / f"xpm{s}"), PYTHONWARNINGS="ignore")
+            procs.append(subprocess.Popen([sys.executable, str(root / "sched_main.py"), json.dumps(a)], stdout=subprocess.PIPE,
+                                          stderr=subprocess.PIPE, text=True, env=env, start_new_session=True))
+        t_end = time.time() + timeout
+        for s, p in enumerate(procs):
+            try:
+                out, err = p.communicate(timeout=max(1, t_end - time.time()))
+                hung = False
+            except subprocess.TimeoutExpired:
+                try:
+                    os.killpg(p.pid, signal.SIGKILL)
+                except Exception:
+                    p.kill()
+                out, err = p.communicate()
+                hung = True
+            sig = ("F6" if "not enough values to unpack" in err else
+                   "F26" if "FileNotFoundError" in err and "in release" in err else
+                   "F24" if "Could not find the taken token" in err else None)
+            if sig:
+                stats["signatures"][sig] = stats["signatures"].get(sig, 0) + 1
+            if hung:
+                stats["hung_schedulers"] += 1
+                key = {"F6": "watcher-dies-on-half-written-token-file", "F26": "release-raises-when-watcher-deleted-first",
+                       "F24": "release-of-reclaimed-token-does-not-notify"}.get(sig)
+                if prop == "C09" and key:
+                    ctx.monitor_fail(key, f"real run: scheduler process {s} of 3 sharing a token of {total} did not finish within {timeout} s; "
+                                          f"its stderr carries the signature of {sig}: ...{err[-300:]}", {"scenario": "real-processes", "round": rd})
+                elif prop == "C09":
+                    ctx.notes.append(f"real run {rd}: scheduler {s} hung without a known signature (not counted): ...{err[-200:]}")
+            elif p.returncode != 0:
+                ctx.notes.append(f"real run {rd}: scheduler {s} exited with {p.returncode}: ...{err[-200:]}")
+        stats["rounds"] += 1
+        ctx.evaluations += 1
+        logf = rdir / "log.txt"
+        evs = []
+        if logf.exists():
+            for line in logf.read_text().splitlines():
+                k, x, c, t = line.split()
+                evs.append((float(t), 0 if k == "E" else 1, int(x), int(c)))
+        evs.sort()
+        held, who = 0, set()
+        for t, k, x, c in evs:
+            if k == 1:
+                held += c
+                who.add(x)
+                stats["tasks_logged"] += 1
+                stats["max_held"] = max(stats["max_held"], held)
+                if held > total and prop == "C08":
+                    ctx.monitor_fail("real-runs-capacity-exceeded", f"real run: tasks {sorted(who)} of three scheduler processes execute at the same time "
+                                                                    f"and hold {held} > total {total}", {"scenario": "real-processes", "log": logf.read_text()})
+            else:
+                held -= c
+                who.discard(x)
+    ctx.extra_cov["file_token_real_process_runs"] = stats
+    return stats
+
+
 # ------------------------------------------------------------------------------------------------ module API
 def prove(ctx):
     """stand-alone use; when chained, add MODULES to the caller's list instead"""
@@ -323,6 +444,8 @@ def prove(ctx):
 
 def correspond(ctx):
     run(ctx, PROP, 450, 8000)
+    if not ctx.quick():
+        real_runs(ctx, PROP)
 
 
 def search(ctx):
